@@ -211,6 +211,58 @@ fn check_lookups(rep: &mut Report, ctx: &J, v: &Value) {
 	}
 }
 
+
+/// The typed entry points (`bool`, `()`, `NumberBuf`, `String` :: parse_str_with) against JsonParser!TokenRun.
+/// Beyond the listed properties: deviations are reported under the extension aspect `X01.token`.
+fn check_typed_tokens(rep: &mut Report, ctx: &J, s: &str, o: Options, tok: &J) {
+	use json_syntax::NumberBuf;
+	let strict = is_strict(&o);
+	let kind = tok["kind"].as_str().unwrap_or("none");
+	let first = s.chars().next();
+	let start_err = json!({"ok": false, "err": {"kind": "unexpected", "pos": 0, "ch": first.map(|c| c as i64).unwrap_or(-1)}});
+	fn pr<T, E>(r: Result<Result<(T, CodeMap), Error<E>>, String>, f: impl Fn(&T) -> J) -> J {
+		match r {
+			Err(p) => json!({"panic": p}),
+			Ok(Ok((v, cm))) => json!({"ok": true, "v": f(&v), "cm": project_cm(&cm)}),
+			Ok(Err(e)) => json!({"ok": false, "err": project_err(&e)}),
+		}
+	}
+	let results: Vec<(&str, J)> = vec![
+		("bool", pr(guarded(|| bool::parse_str_with(s, o)), |b| json!({"t": "bool", "b": b}))),
+		("null", pr(guarded(|| <()>::parse_str_with(s, o)), |_| json!({"t": "null"}))),
+		("num", pr(guarded(|| NumberBuf::parse_str_with(s, o)), |n| json!({"t": "num", "num": crate::proj::cps(n.as_str())}))),
+		("str", pr(guarded(|| json_syntax::String::parse_str_with(s, o)), |x| json!({"t": "str", "str": crate::proj::cps(x.as_str())}))),
+	];
+	for (k, got) in results {
+		rep.count("token_calls");
+		let exp = if k == kind { &tok["out"] } else { &start_err };
+		let mut bad: Option<String> = None;
+		if got.get("panic").is_some() {
+			bad = Some("typed entry point panicked".into());
+		} else if exp["ok"] != got["ok"] {
+			bad = Some("verdict differs".into());
+		} else if exp["ok"].as_bool() == Some(true) {
+			if exp["v"] != got["v"] || exp["cm"] != got["cm"] {
+				bad = Some("value or code map differs".into());
+			}
+		} else if strict {
+			let (ee, ge) = (&exp["err"], &got["err"]);
+			if ee["kind"] != ge["kind"] {
+				bad = Some("error class differs".into());
+			} else if ee["kind"] == "unexpected" && (ee["pos"] != ge["pos"] || ee["ch"] != ge["ch"]) {
+				bad = Some("unexpected-character error does not point at the first offending character".into());
+			} else if ee["kind"] == "surrogate" {
+				if let Err(why) = surrogate_err_matches(ee, ge) {
+					bad = Some(why);
+				}
+			}
+		}
+		if let Some(what) = bad {
+			rep.mismatch("X01.token", json!({"what": what, "entry": format!("{k}::parse_str_with"), "input": ctx, "expected": exp, "observed": got}));
+		}
+	}
+}
+
 /// Replay one `parse` vector.
 pub fn replay_parse(rep: &mut Report, rec: &J) {
 	rep.count("parse_vectors");
@@ -259,6 +311,9 @@ pub fn replay_parse(rep: &mut Report, rec: &J) {
 		if it.pulls > items.len() {
 			rep.mismatch("C03.pulls", json!({"what": "more characters pulled than the input holds", "input": ctx, "pulls": it.pulls}));
 		}
+	}
+	if let Some(tok) = rec.get("tok") {
+		check_typed_tokens(rep, &ctx, &s, o, tok);
 	}
 	if exp["ok"].as_bool() == Some(true) {
 		rep.count("accepted");
